@@ -57,6 +57,23 @@ def make_event(case):
             except BaseException as e:  # noqa
                 rets = "exc:" + type(e).__name__
             full["stops"].append({"k": k, "calls": calls_k, "ret": rets})
+        # a read-only visitor that itself walks the tree (any order) at its k-th callback: the outer walk must be unaffected
+        nested = []
+        for inner in ORD.values():
+            outer_calls = []
+
+            def rec_n(node, depth, data, outer_calls=outer_calls, inner=inner):
+                outer_calls.append([objs.of(node), depth])
+                if len(outer_calls) in (1, 2):
+                    getattr(root, inner)(lambda n, d, x: None)
+                    getattr(node, inner)(lambda n, d, x: None)
+                return None
+            try:
+                getattr(root, meth)(rec_n)
+            except BaseException as e:  # noqa
+                outer_calls.append([-1, -1])
+            nested.append(outer_calls)
+        full["nested"] = nested
         ev["orders"][o] = full
     # traversals started at an inner node stay inside that node's subtree (depths count from the start node)
     ev["sub"] = []
